@@ -410,6 +410,71 @@ Section Pipeline.
     simpl. now apply Forall2_app.
   Qed.
 
+  (* ---- columns ---- *)
+
+  Lemma column_width_peq a b : peq a b -> column_width [a] = column_width [b].
+  Proof.
+    intros H. unfold column_width. rewrite (peq_length a b false false H), (peq_keyword a b H). reflexivity.
+  Qed.
+
+  Lemma column_count_proj t : column_count [proj_tok t] = column_count [t].
+  Proof.
+    unfold column_count. rewrite get_keyword_proj.
+    destruct t; try reflexivity. cbn [proj_tok]. now destruct (is_custom_name v).
+  Qed.
+
+  Lemma column_count_peq a b : peq a b -> column_count [a] = column_count [b].
+  Proof. unfold peq. intros H. now rewrite <- (column_count_proj a), <- (column_count_proj b), H. Qed.
+
+  Lemma columns_loop_ceq l l' :
+    Forall2 ceq l l' -> forall name,
+    orel (fun x y => Forall2 prel (fst x) (fst y) /\ snd x = snd y) (columns_loop l name) (columns_loop l' name).
+  Proof.
+    induction 1 as [|a b r r' [Hab Ha] _ IH]; intros name; cbn [columns_loop].
+    - simpl. split; [constructor|reflexivity].
+    - rewrite (column_width_peq a b Hab), (column_count_peq a b Hab).
+      assert (Hc : Forall2 ceq [a] [b]) by (repeat constructor; assumption).
+      match goal with |- context [match ?x with Some _ => _ | None => None end] => destruct x as [nm|] end; [|exact I].
+      specialize (IH nm).
+      destruct (columns_loop r nm) as [[out last]|], (columns_loop r' nm) as [[out' last']|];
+        simpl in IH; try contradiction; [|exact I].
+      destruct IH as [Ho Hl]. simpl. split; [|exact Hl]. constructor; [|exact Ho]. split; [reflexivity|exact Hc].
+  Qed.
+
+  Lemma expand_columns_ceq sh l l' :
+    Forall2 ceq l l' -> orel (Forall2 prel) (expand_columns sh l) (expand_columns sh l').
+  Proof.
+    intros H. unfold expand_columns.
+    assert (Hrev : Forall2 ceq
+                     match l with [a; b] => if str_eqb (get_keyword a) kw_auto then [b; a] else l | _ => l end
+                     match l' with [a; b] => if str_eqb (get_keyword a) kw_auto then [b; a] else l' | _ => l' end).
+    { inversion H as [|a1 b1 r1 r1' H1 Ht1]; subst; [constructor|].
+      inversion Ht1 as [|a2 b2 r2 r2' H2 Ht2]; subst; [exact H|].
+      inversion Ht2 as [|a3 b3 r3 r3' H3 Ht3]; subst; [|exact H].
+      destruct H1 as [P1 T1]. rewrite (peq_keyword a1 b1 P1).
+      destruct (str_eqb (get_keyword b1) kw_auto); [|exact H].
+      repeat constructor; try assumption; now destruct H2. }
+    set (t := match l with [a; b] => if str_eqb (get_keyword a) kw_auto then [b; a] else l | _ => l end) in *.
+    set (t' := match l' with [a; b] => if str_eqb (get_keyword a) kw_auto then [b; a] else l' | _ => l' end) in *.
+    clearbody t t'. clear H l l'.
+    pose proof (columns_loop_ceq t t' Hrev []) as Hl.
+    destruct (columns_loop t []) as [[out name]|], (columns_loop t' []) as [[out' name']|];
+      simpl in Hl; try contradiction; [|exact I].
+    destruct Hl as [Ho Hn]. subst name'.
+    inversion Hrev as [|a1 b1 r1 r1' H1 Ht1]; subst; [exact Ho|].
+    inversion Ht1; subst; [|exact Ho].
+    simpl. apply Forall2_app; [exact Ho|]. constructor; [|constructor].
+    split; [reflexivity|]. constructor; [|constructor]. split; reflexivity.
+  Qed.
+
+  Lemma columns_expander_ceq l l' :
+    Forall2 ceq l l' ->
+    orel lrel (columns_expander known validate l) (columns_expander known validate l').
+  Proof.
+    intros H. unfold columns_expander. apply generic_expander_ceq; [|assumption].
+    now apply expand_columns_ceq.
+  Qed.
+
   Lemma expander_of_ceq name l l' :
     Forall2 ceq l l' ->
     match expander_of known validate pc oe name with
@@ -421,6 +486,8 @@ Section Pipeline.
     destruct (in_table four_sides_shorthands name); [now apply four_sides_ceq|].
     destruct (str_eqb name n_border); [now apply expand_border_ceq|].
     destruct (in_table border_sides name); [now apply border_side_ceq|].
+    destruct (in_table side_like_shorthands name); [now apply border_side_ceq|].
+    destruct (str_eqb name n_columns); [now apply columns_expander_ceq|].
     destruct (oe name) as [e|] eqn:E; [|exact I].
     apply orel_lrel_eq. destruct (ceq_clean _ _ H) as [Hc [Hc' _]].
     apply (oe_proj name e E); [assumption|assumption|now apply ceq_proj].
